@@ -1,15 +1,19 @@
-"""C36 Wildmatch — bounded recursion clause (LP)."""
+"""C36 Wildmatch — bounded recursion clause (LP), POSIX class table equals git's (TAB + AI-int)."""
 from gx import lp
 
-TECHNIQUE = "recursion-bound check over MIR: depth parameter compared with a constant that cuts off every recursive call, each call passes depth+1"
+TECHNIQUE = "recursion-bound check over MIR (depth parameter compared with a constant that cuts off every recursive call, each call passes depth+1); spec-table agreement for POSIX classes by interval abstract interpretation of each class arm"
 EXPLANATION = ("Decides that gix_glob::wildmatch's recursive matcher cannot recurse without bound: the same parameter is passed as `depth + 1` "
                "at every recursive call, a comparison of that parameter with the constant limit dominates every recursive call and its "
                "limit-reached edge cannot reach one, and every outside caller starts at a constant not above the limit. "
-               "Agreement of match results with git's wildmatch is not decided (value-level, differential).")
+               "For each of the 12 [:class:] arms of the bracket parser (found through the byte-string decision tree) the set of text bytes that sets `matched` is "
+               "computed by interval abstract interpretation of the arm over 0..=255 (std predicates modelled by their documented sets, mode-dependent branches forked) "
+               "and must equal git wildmatch.c's table (ISBLANK = SP,TAB; isspace = SP,TAB,LF,CR; ...). Agreement of the remaining state machine (ranges, negation, "
+               "escapes, star handling) with git is not decided (value-level, differential).")
 
 
 def run(db, chk):
     f = db.one(r"^gix_glob::wildmatch::function::match_recursive$")
+    class_table(db, chk, f)
     res = lp.bounded_recursion(db, f)
     chk.floor("recursive calls in match_recursive", res.get("rec_calls", 0), 2)
     chk.ob("recursion-bounded", f.name, res["ok"], res["reason"], "%s:%d" % (f.file, res.get("guard_line") or res.get("line") or f.line), key="recursion-bounded|%s" % f.name)
@@ -24,3 +28,76 @@ def run(db, chk):
     rec = [g.name for g in db.by_crate["gix_glob"] if any(g.name in c.names for c in g.calls())]
     chk.ob("no-other-recursion", "gix_glob self-recursive functions", set(rec) <= {f.name}, "self-recursive: %s" % rec, "", key="no-other-recursion|gix_glob")
     chk.set("functions_analysed", len(db.by_crate["gix_glob"]))
+
+
+def _iv(*xs):
+    out = []
+    for x in xs:
+        out.append((x, x) if isinstance(x, int) else x)
+    return sorted(out)
+
+
+_UP, _LO, _DG = (0x41, 0x5a), (0x61, 0x7a), (0x30, 0x39)
+_PUNCT = [(0x21, 0x2f), (0x3a, 0x40), (0x5b, 0x60), (0x7b, 0x7e)]
+# what the Rust std predicates accept (core::num u8::is_ascii_*)
+STD = {r"::is_ascii_alphanumeric$": _iv(_DG, _UP, _LO), r"::is_ascii_alphabetic$": _iv(_UP, _LO), r"::is_ascii_whitespace$": _iv(0x09, 0x0a, 0x0c, 0x0d, 0x20),
+       r"::is_ascii_control$": _iv((0, 0x1f), 0x7f), r"::is_ascii_digit$": _iv(_DG), r"::is_ascii_graphic$": _iv((0x21, 0x7e)), r"::is_ascii_lowercase$": _iv(_LO),
+       r"::is_ascii_punctuation$": _iv(*_PUNCT), r"::is_ascii_uppercase$": _iv(_UP), r"::is_ascii_hexdigit$": _iv(_DG, (0x41, 0x46), (0x61, 0x66)),
+       r"RangeInclusive<.*>::contains$|range::RangeInclusive::<Idx>::contains$|::contains$": "range-contains"}
+# git wildmatch.c dowild(): ISALNUM.. with git's sane_ctype (isspace = SP,TAB,LF,CR; ISBLANK = SP,TAB; isprint = 0x20..0x7e)
+GIT = {b"alnum": _iv(_DG, _UP, _LO), b"alpha": _iv(_UP, _LO), b"blank": _iv(0x09, 0x20), b"cntrl": _iv((0, 0x1f), 0x7f), b"digit": _iv(_DG),
+       b"graph": _iv((0x21, 0x7e)), b"lower": _iv(_LO), b"print": _iv((0x20, 0x7e)), b"punct": _iv(*_PUNCT), b"space": _iv(0x09, 0x0a, 0x0d, 0x20),
+       b"upper": _iv(_UP), b"xdigit": _iv(_DG, (0x41, 0x46), (0x61, 0x66))}
+GIT_MAY = {b"upper": _iv(_UP, _LO)}     # with WM_CASEFOLD [:upper:] also accepts lower-case
+
+
+def _norm(ivs):
+    out = []
+    for a, b in sorted(ivs):
+        if out and out[-1][1] + 1 >= a:
+            out[-1] = (out[-1][0], max(out[-1][1], b))
+        else:
+            out.append((a, b))
+    return out
+
+
+def class_table(db, chk, f):
+    """POSIX character classes: for every [:name:] arm of the bracket parser the set of text bytes that set `matched` is computed by interval
+    abstract interpretation of the arm (std predicates modelled by their documented sets) and must equal git's table."""
+    from gx import tab, aiint
+    tries = [(b, blk) for b, blk in tab.byte_tries(f) if b in GIT]
+    chk.floor("POSIX class arms in the bracket parser", len(tries), 12)
+    names = {v: int(k) for k, v in f.names.items()}
+    t_ch, matched = names.get("t_ch"), names.get("matched")
+    if t_ch is None or matched is None:
+        chk.anchor_lost("locals t_ch / matched of match_recursive")
+        return
+    allb = set(f.reachable_blocks())
+    # constant ranges living in promoted bodies
+    env0 = {}
+    for bi, si, pl, rv, ln, mc in f.assigns():
+        if rv[0] == "use" and "promoted" in rv[1] and len(pl) == 1:
+            pr = next((g for g in db.by_crate[f.crate] if g.name == "%s::{promoted#%s}" % (f.name, rv[1]["promoted"])), None)
+            if pr is not None:
+                for c in pr.calls_to(r"RangeInclusive::<Idx>::new$|RangeInclusive<.*>::new$"):
+                    if all("v" in a for a in c.args[:2]):
+                        env0[pl[0]] = ("range", c.args[0]["v"], c.args[1]["v"])
+                for bi2, si2, pl2, rv2, ln2, mc2 in pr.assigns():
+                    if rv2[0] == "agg" and rv2[2].endswith("RangeInclusive") and len(rv2[4]) >= 2 and all("v" in a for a in rv2[4][:2]):
+                        env0[pl[0]] = ("range", rv2[4][0]["v"], rv2[4][1]["v"])
+    for name, leaf in sorted(tries):
+        try:
+            pw = aiint.piecewise(f, lambda p: p == [t_ch], 0, 255, start=leaf, stop={b_ for b_ in allb if not f.dominates(leaf, b_)}, observe=matched, env0=env0, models=STD, fork_unknown=True)
+        except aiint.Unsupported as e:
+            chk.ob("posix-class-table", "[:%s:]" % name.decode(), False, "arm not evaluable: %s" % e, "%s:%d" % (f.file, f.line), key="posix-class|%s|unsupported" % name.decode())
+            continue
+        may = _norm([(a, b) for a, b, v in pw if v == 1])
+        notset = _norm([(a, b) for a, b, v in pw if v != 1])
+        must = _norm(aiint._minus(may, notset)) if notset else may
+        want_must, want_may = GIT[name], GIT_MAY.get(name, GIT[name])
+        ok = must == _norm(want_must) and may == _norm(want_may)
+        def fmt(ivs):
+            return ",".join("%02x" % a if a == b else "%02x-%02x" % (a, b) for a, b in ivs)
+        chk.ob("posix-class-table", "[:%s:]" % name.decode(), ok, "matches text bytes {%s}%s; git's wildmatch matches {%s}" % (fmt(must), "" if may == must else " (up to {%s} depending on mode)" % fmt(may), fmt(_norm(want_must))),
+               "%s:%d" % (f.file, f.line), key="posix-class|%s" % name.decode())
+        chk.sample({"class": name.decode(), "must": fmt(must), "may": fmt(may)})
